@@ -21,6 +21,10 @@ CLAIMED = {
    technique="TLA+ spec of the three drive modes x recording (Xeh.tla Submit/Run/Step), TLC on all generated programs; replay in six modes against the structural reference; six-mode twin traces validated by TLC (Trace_TwinObs)",
    text="TLC checks on the design that eval, compile+run and compile+step, each with recording off and on, end in the same observable state for every generated program, and exports the reference's prediction; the real crate is run in all six modes on every enumerated program (must match the prediction) and on seeded whole-dictionary programs (the six observations - rendered result, visible stack, all variables and heap cells, stdout - must be equal; validated by the twin-run trace specification).",
    note="Panics are treated as an observation (C08 judges them); the instruction limit is set identically before each mode."),
+ "C10": dict(cat="model_checking", design="5/C10",
+   technique="TLA+ spec of build_from / contexts / pending input / flow stack (Xeh.tla), twin-run self-composition checked by TLC over all scenarios; twin replay on the real crate; seeded twin traces validated by TLC (Trace_TwinObs); REPL scripts through the real binary",
+   text="TLC judges every scenario (prior history x open structures x failing token x trailing text x probes x submission style, plus run-time failing sources) as a two-run statement on the design: probes after a rejected source behave as if it had never been submitted and mode/nesting/flow/input are restored. Every scenario is replayed as twin runs on the real crate and must also match the design's predicted probe outcomes; seeded long histories with corrupted sources are recorded as twin observations and validated by the twin-run trace specification; a regression configuration shows that the model checker still rejects the pinned, non-unwinding design.",
+   note="Behaviour is compared, not buffer names or heap addresses; a source counts as rejected at build time when compiling it on a clone fails."),
 }
 
 PENDING_REASON = "check not built yet in this build session (planned, DESIGN.md section 12); no claim is made for it"
